@@ -68,6 +68,8 @@ func c13Gen(r *Rand, tier string) interface{} {
 					st.Val = next()
 					if r.Chance(1, 6) {
 						st.Kind = "n" // the value nil: the scope then has the key, with no value (it hides the parent's)
+					} else if r.Chance(1, 4) {
+						st.Val = -1 - r.Intn(2) // one of two strings: equal values at several levels are ordinary
 					}
 				}
 				op.Steps = append(op.Steps, st)
@@ -188,10 +190,27 @@ var c13Model = porcupine.Model{
 }
 
 func c13Val(v interface{}) int {
-	if v == nil {
+	switch x := v.(type) {
+	case nil:
 		return 0
+	case string:
+		if x == "same-a" {
+			return -1
+		}
+		return -2
 	}
 	return v.(int)
+}
+
+// c13Obj is the value stored for a model value: negative ones are (non-unique) strings.
+func c13Obj(val int) interface{} {
+	switch val {
+	case -1:
+		return "same-a"
+	case -2:
+		return "same-b"
+	}
+	return val
 }
 
 // c13Exec runs the steps of one operation against ds (a DataScope or a locker).
@@ -331,7 +350,7 @@ func c13Sequential(in *c13In, env *Env) *Failure {
 		for _, s := range op.Steps {
 			switch s.Kind {
 			case "w":
-				ds.SetValue(c13K(s.Key), s.Val)
+				ds.SetValue(c13K(s.Key), c13Obj(s.Val))
 				model[op.Level][s.Key] = s.Val
 			case "n":
 				ds.SetValue(c13K(s.Key), nil)
